@@ -250,11 +250,22 @@ func (c *Ctx) ruleLockset(rule string, targets map[*types.Named]string) {
 		names = append(names, n)
 	}
 	sort.Slice(names, func(i, j int) bool { return names[i].Obj().Name() < names[j].Obj().Name() })
+	type pair struct {
+		target *types.Named
+		mutex  string
+	}
+	var pairs []pair
 	for _, target := range names {
-		mutex := targets[target]
+		for _, m := range allMutexFields(target) {
+			pairs = append(pairs, pair{target, m})
+		}
+	}
+	for _, pr := range pairs {
+		target, mutex := pr.target, pr.mutex
 		accs := c.collectAccesses(target, mutex)
 		// role-required guarded fields (independent of where locks are taken today): shared cbor encoders, and the
-		// client's pending table, signal-channel table and running flag
+		// client's pending table, signal-channel table and running flag. With several mutexes in one struct a required
+		// field belongs to the mutex under which it is accessed somewhere; to the first mutex if to none.
 		required := map[string]bool{}
 		if st, ok := target.Underlying().(*types.Struct); ok {
 			for i := 0; i < st.NumFields(); i++ {
@@ -266,6 +277,21 @@ func (c *Ctx) ruleLockset(rule string, targets map[*types.Named]string) {
 		if ro := c.roles(); ro.ok && ro.clientT != nil && ro.clientT.Obj() == target.Obj() {
 			required[ro.pending], required[ro.sigTable], required[ro.runFlag] = true, true, true
 			delete(required, "")
+		}
+		if ms := allMutexFields(target); len(ms) > 1 {
+			for f := range required {
+				owner := ms[0]
+				for _, m := range ms {
+					for _, a := range c.collectAccesses(target, m) {
+						if a.field == f && a.locked && !a.constr {
+							owner = m
+						}
+					}
+				}
+				if owner != mutex {
+					delete(required, f)
+				}
+			}
 		}
 		type info struct{ underLock, mutable bool }
 		fields := map[string]*info{}
